@@ -6,6 +6,8 @@ import (
 	"fmt"
 	"github.com/wrgl/wrgl/pkg/pbar"
 	"io"
+	"os"
+	"path/filepath"
 	"sort"
 	"strings"
 	"time"
@@ -288,6 +290,7 @@ func c16SorterIngest(c *mc.Ctx) {
 	needSched()
 	workers := 1 + c.Choose(2)
 	spill := c.Choose(2) == 1
+	corrupt := spill && c.Choose(2) == 1 // the spilled chunk cannot be read back completely (truncated temp file)
 	c.Shard()
 	rows := keyedRows(7)
 	rows = append(rows, []string{"03", "dup"})
@@ -316,18 +319,38 @@ func c16SorterIngest(c *mc.Ctx) {
 	if err != nil {
 		panic(err)
 	}
-	desc := fmt.Sprintf("sorter -> ingest: 8 rows (one duplicate key), %d workers, spill=%v", workers, spill)
+	desc := fmt.Sprintf("sorter -> ingest: 8 rows (one duplicate key), %d workers, spill=%v, spilled chunk truncated=%v", workers, spill, corrupt)
 	c.Logf("%s", desc)
 	setRoot(desc)
 	db := stores.NewMemStore()
 	srt := mk()
 	defer srt.Close()
+	if corrupt {
+		files, _ := filepath.Glob(filepath.Join(os.TempDir(), "sorted_chunk_*"))
+		if len(files) == 0 {
+			panic("mc: no spilled chunk found to truncate")
+		}
+		for _, f := range files {
+			if st, err := os.Stat(f); err == nil && st.Size() > 1 {
+				os.Truncate(f, st.Size()-1)
+			}
+		}
+	}
 	var got []byte
 	var gerr error
 	s := schedule(c, func() {
 		got, gerr = ingest.NewInserter(db, srt, logr.Discard(), ingest.WithNumWorkers(workers+2)).IngestTableFromSorter([]string{"k", "v"}, []uint32{0})
 	})
 	if schedFail(c, s, desc) {
+		return
+	}
+	if corrupt {
+		if gerr == nil {
+			c.Fail("error-lost", "the sorter could not read its spilled chunk back, yet ingest reported no error; %s", desc)
+			return
+		}
+		c.Outcome("error-reported")
+		c.Nontrivial(desc)
 		return
 	}
 	if gerr != nil {
@@ -663,7 +686,7 @@ func init() {
 		ID:    "C16",
 		Level: "model_checking",
 		Rule: "stateless schedule exploration (DFS over scheduler decisions with iterative preemption bounding) of the REAL pipeline code under a cooperative scheduler: every go statement, channel send / receive / range / close, reflect.Select, WaitGroup operation and Mutex lock AND unlock of inserter.go, sorter.go, diff.go, merger.go, row_collector.go is rewritten at build time into a scheduling point; channel contents live in the scheduler. " +
-			"Harnesses: ingest worker pool (2..3 blocks of 3 rows, 2..3 workers, block channel capacity 0/1/10, each object-store write failing in turn, once or from then on); sorter producer -> inserter with and without a spilled chunk; differ + consumer (with failing store reads); merger (two differs, select loop, collector) + consumer for three merge shapes - five threads over unbuffered channels, explored with DELAY bounding (every departure from the deterministic default schedule counts) instead of preemption bounding; the same merger over a store whose k-th read fails once, or whose every read from the k-th on fails (k = 1..14). " +
+			"Harnesses: ingest worker pool (2..3 blocks of 3 rows, 2..3 workers, block channel capacity 0/1/10, each object-store write failing in turn, once or from then on); sorter producer -> inserter with and without a spilled chunk, and with a spilled chunk that cannot be read back (truncated); differ + consumer (with failing store reads); merger (two differs, select loop, collector) + consumer for three merge shapes - five threads over unbuffered channels, explored with DELAY bounding (every departure from the deterministic default schedule counts) instead of preemption bounding; the same merger over a store whose k-th read fails once, or whose every read from the k-th on fails (k = 1..14). " +
 			"Every complete schedule within the preemption bound must end (no deadlock / livelock within the horizon), have no send on closed / double close, no happens-before data race on the inserter's shared fields (vector clocks), return the 1-worker sequential result, and report an injected store error to the caller. " +
 			"Progress bars (pkg/pbar, used by commit and merge): every sequence of up to 3 operations {Incr, IncrBy, SetCurrent(0..4), SetTotal(0..4)} on a bar created with total {-1,0,1,3}, ended by Done or Abort and Container.Wait, must return - a build-time hang check turns waiting for a bar that is still running into a reported hang instead of blocking. " +
 			"Cross-check (harness race-detector-free-running, NOT an enumeration of schedules): the same harness bodies, with 2..4 workers and up to 9 blocks, run without the scheduler in a binary compiled with the Go race detector, 6 (thorough 40) repetitions per configuration; any race report is a violation - this covers unsynchronised accesses the cooperative scheduler cannot see. " +
